@@ -214,7 +214,7 @@ def run_pairs(ctx):
 
             def fn(value):
                 kind, sa, sb = value
-                spec = wrap_subs(kind, [sa, sb])
+                spec = wrap_subs(kind, g._fit([sa, sb]))
                 ctx.case(('p', spec), True, labels=['pair-enum'], sample=None)
                 direction_a(spec)
                 direction_b(spec, b' ')
